@@ -457,7 +457,7 @@ def behaviour(ck, cases):
     open(mp, "w").write(src)
     ok, tags, msgs = probes.rustc_diagnose(mp, os.path.join(wd, "beh_exe"), r["text"], bp)
     if not ok:
-        bt = getattr(probes.rustc_diagnose, "last_by_tag", {})
+        bt = probes.last_by_tag()
         bytag = {c.tag: c for c in sel}
         for t in sorted(tags):
             if t in bytag:
